@@ -81,11 +81,14 @@ def run(ctx):
   if ctx.quick:
     plans = [(base, 4),
              (dict(base, starts=[[('CreateStudyMd', 's')]]), 2),      # from a study created with unsorted / repeated spec metadata
+             # from a study that already holds 11 trials (ids with one and with two digits; REQUESTED and ACTIVE ones)
+             (dict(base, max_trials=13, max_id=13, max_ops=3, starts=[[('CreateStudy', 's')] + [('CreateTrial', 's', 'requested', 0.25)] * 9 + [('SuggestTrials', 's', 'a', 2)] + [('CreateTrial', 's', 'requested', 0.25)] * 2]), 1),
              (dict(multi, studies=('s_1', 'sx1', 'p@s_1')), 5),
              (dict(multi, studies=('S%', 's1', 'p@S%')), 4)]
   else:
     plans = [(dict(base, max_trials=3, max_meas=2, max_ops=3, max_id=5), 6),
              (dict(base, starts=[[('CreateStudyMd', 's')]]), 4),
+             (dict(base, max_trials=14, max_id=14, max_ops=3, starts=[[('CreateStudy', 's')] + [('CreateTrial', 's', 'requested', 0.25)] * 9 + [('SuggestTrials', 's', 'a', 2)] + [('CreateTrial', 's', 'requested', 0.25)] * 2]), 2),
              (dict(multi, studies=('s_1', 'sx1', 'p@s_1'), backends=['ram', 'sqlmem', 'sqlfile'], max_trials=2, max_id=3), 7),
              (dict(multi, studies=('S%', 's1', 'p@S%', 'p@s1'), max_trials=2, max_id=3), 6)]
   cov = {'states': 0, 'transitions': 0, 'traces_validated_against_impl': 0, 'samples': [], 'runs': [], 'exhaustive': True}
